@@ -179,6 +179,17 @@ def run(tier: str) -> Run:
         r6.ok('scattering_angle_in_yz_plane')
     r4.check(refuse_ok and n_ret > 0, 'reflectometry refusal', loc(fi),
              {'expected': 'raise ValueError iff any(' + T.show(exp['predicate']) + ')'}, key='yz:refusal')
+
+    # R7: single-precision wavelength - magnitude of the float32 intermediates over the unit grid
+    r7 = run.rule('R7', 'for float32 wavelengths 0.1..100 angstrom (angstrom/nm/m), beams of 0.1 m..1 km (angstrom..km) and |g| 1..100 m/s^2 no float32 '
+                        'power-product intermediate leaves the normal range of float32', 2)
+    from checks.magrule import worst_f32
+    for name in ('scattering_angles_with_gravity', 'scattering_angle_in_yz_plane'):
+        kfi = repo.func('conversion.beamline', name)
+        worst, n_runs, n_products = worst_f32(repo, kfi, fixed_same=[('incident_beam', 'scattered_beam')], corners=tier == 'quick')
+        if n_runs == 0 or n_products == 0:
+            raise AnalysisError(f'{kfi.fq}: no single-precision intermediate was bounded ({n_runs} unit assignments)')
+        r7.check(worst is None, name, loc(kfi), {'unit_assignments': n_runs, 'power_products_bounded': n_products, 'worst': worst}, key=f'{name}:f32-range')
     return run
 
 
